@@ -77,6 +77,13 @@ class RemotePlan:
         self.rng.shuffle(entries)
         return entries
 
+    logical_atime = True
+
+    def logical_time(self):
+        """strictly increasing per actor, distinct across actors: a function of the actor's own progress only"""
+        self.lt = getattr(self, "lt", 0) + 1
+        return 1.6e9 + self.lt * 100 + self.aid
+
 
 def send_msg(fd, obj):
     data = pickle.dumps(obj)
@@ -130,6 +137,17 @@ def sim_open(file, mode="r", buffering=-1, *a, **k):
             return io.TextIOWrapper(buf, encoding=k.get("encoding"), newline=k.get("newline"))
     _inside[0] += 1
     try:
+        if (PLAN is not None and getattr(PLAN, "logical_atime", False) and isinstance(file, str) and PLAN.relevant(file)
+                and mode in ("rb", "r") and file.endswith("output.pkl")):
+            # reading a result = an access.  The kernel would stamp it with the (coarse, real) clock: open without atime
+            # update and stamp a logical time instead, so that LRU eviction is a function of the schedule only
+            try:
+                fd = _os["open"](file, os.O_RDONLY | getattr(os, "O_NOATIME", 0))
+                t = PLAN.logical_time()
+                _os["utime"](file, (t, t))
+                return _open(fd, mode, buffering, *a, **k)
+            except OSError:
+                pass
         return _open(file, mode, buffering, *a, **k)
     finally:
         _inside[0] -= 1
@@ -199,6 +217,10 @@ def install(plan):
             _inside[0] += 1
             try:
                 r = orig(*a, **k)
+                if name in ("replace", "rename") and getattr(PLAN, "logical_atime", False) and len(a) > 1 \
+                        and str(a[1]).endswith("output.pkl") and PLAN.relevant(str(a[1])):
+                    t = PLAN.logical_time()
+                    _os["utime"](a[1], (t, t))
             finally:
                 _inside[0] -= 1
             if p is not None and PLAN.relevant(p):
@@ -212,6 +234,17 @@ def install(plan):
         return w
     for n in _OS_NAMES:
         setattr(os, n, mk(n))
+    if getattr(plan, "logical_atime", False):
+        # access times of DIRECTORIES cannot be controlled (every listing bumps them to the coarse real clock): entries
+        # without a result file, whose age joblib takes from their directory, all get the same constant age
+        import stat as _stat
+
+        def getatime(p_):
+            st = os.stat(p_)
+            if _stat.S_ISDIR(st.st_mode) and PLAN.relevant(os.fspath(p_)):
+                return 1.7e9
+            return st.st_atime
+        os.path.getatime = getatime
     import joblib._store_backends as sb
     sb.FileSystemStoreBackend._open_item = staticmethod(sim_open)
     sb.FileSystemStoreBackend._item_exists = staticmethod(os.path.exists)
